@@ -438,10 +438,88 @@ static rc::Gen<Case> genCase(int tier)
     });
 }
 
+// Coverage-guided mode: any field image -> a case of the property's domain (distinct endpoints, version / message type != 0, generic
+// payload types that no typed validator claims, 2..n segments with a total <= 65535 for segmented messages), with bounded work.
+static void normalizeCase(Case& c)
+{
+    if (c.eps.empty())
+        c.eps.push_back(EndpointScript{});
+    if (c.eps.size() > 6)
+        c.eps.resize(6);
+    if (c.idleGap > 5000)
+        c.idleGap = 1000 + c.idleGap % 4001;
+    if (c.schedule.size() > 64)
+        c.schedule.resize(64);
+    std::set<std::pair<uint16_t, uint8_t>> seen;
+    std::vector<EndpointScript> keep;
+    size_t frames = 0, bytes = 0;
+    for (auto& ep : c.eps)
+    {
+        if (ep.stream == 0x7A && (ep.dev == 0x7A7A || ep.dev == 0x7A7B))
+            ep.dev = 0x7A7C;  // reserved for the foreign traffic of the idle gap
+        if (!seen.insert({ep.dev, ep.stream}).second)
+            continue;
+        if (ep.version == 0)
+            ep.version = 1;
+        if (ep.msgType == 0)
+            ep.msgType = 1;
+        if (ep.msgs.size() > 10)
+            ep.msgs.resize(10);
+        for (auto& m : ep.msgs)
+        {
+            m.segmented = m.segmented ? 1 : 0;
+            m.ethTyped = m.ethTyped ? 1 : 0;
+            m.nUnseg = static_cast<uint8_t>(1 + (m.nUnseg + 2) % 3);
+            if (m.ptype < 0x09)
+                m.ptype = static_cast<uint8_t>(m.ptype | 0x20);
+            m.flags = static_cast<uint8_t>(m.flags & ~0x4C);
+            if (m.segs.empty())
+                m.segs.push_back(SegSpec{});
+            if (m.segmented)
+            {
+                if (m.segs.size() < 2)
+                    m.segs.push_back(SegSpec{});
+                if (m.segs.size() > 800)
+                    m.segs.resize(800);
+                size_t budget = 65535;
+                for (auto& sg : m.segs)
+                {
+                    if (sg.len > budget)
+                        sg.len = static_cast<uint16_t>(budget);
+                    budget -= sg.len;
+                    if (sg.trailKind > 3)
+                        sg.trailKind = 0;
+                    frames += 1;
+                    bytes += sg.len;
+                }
+            }
+            else
+            {
+                m.segs.resize(1);
+                m.segs[0].trailKind = 0;
+                frames += 1;
+                bytes += size_t(m.segs[0].len) * m.nUnseg;
+            }
+        }
+        // bounded work per input: drop the tail of a script that makes the case too large
+        while (!ep.msgs.empty() && (frames > 4000 || bytes > 600000))
+        {
+            const auto& m = ep.msgs.back();
+            for (const auto& sg : m.segs)
+                bytes -= std::min<size_t>(bytes, size_t(sg.len) * (m.segmented ? 1 : m.nUnseg));
+            frames -= std::min(frames, m.segs.size());
+            ep.msgs.pop_back();
+        }
+        keep.push_back(ep);
+    }
+    c.eps = keep;
+}
+
 int main(int argc, char** argv)
 {
     Property<Case> prop;
     prop.id = "C05";
+    prop.normalize = normalizeCase;
     prop.gen = genCase;
     prop.run = runCase;
     return pbtMain(argc, argv, prop);
